@@ -4,8 +4,9 @@ Deciding monitor: contract on serialize_molecule: the library parser's graph of 
 to the ARGUMENT (independent matcher: exact canonical form n<=8, VF2 otherwise), have the same atom/bond counts, agree with the
 reference reader's labelled graph, and re-running the pipeline on it must reproduce the string byte for byte."""
 from collections import Counter
+import random
 
-from .. import monitors
+from .. import bridge, monitors
 from ..oracles.elements import Z
 from . import common, molprops
 
@@ -18,7 +19,7 @@ SPEC = {
              ">=2 elements or >=1 labelled atom"),
     "assumptions": ["isomorphism verdicts: exact canonical form (n<=8) or igraph VF2 on the harness's projection; molecules > 400 atoms skipped (counted)"],
     "monitors_required": ["c03_parse_back"],
-    "required_obs": {"quick": ["cov_symbol_order_differs_from_Z_order", "cov_index_ge_100", "cov_block_with_two_differently_labelled_atoms", "cov_corpus", "cov_elements_seen_ge_100"]},
+    "required_obs": {"quick": ["cov_input_iteration_order_differs_from_labels", "cov_symbol_order_differs_from_Z_order", "cov_index_ge_100", "cov_block_with_two_differently_labelled_atoms", "cov_corpus", "cov_elements_seen_ge_100"]},
     "watchdog_s": {"quick": 900, "thorough": 3600},
 }
 PLAN = {
@@ -28,6 +29,10 @@ PLAN = {
 
 
 def run_case(ctx, case):
+    return common.case_guard(ctx, case, _run_case)
+
+
+def _run_case(ctx, case):
     import tucan.canonicalization as c
     import tucan.serialization as s
     g0, mol = molprops.build_case_graph(case)
@@ -36,6 +41,16 @@ def run_case(ctx, case):
     ok, s0 = molprops.guarded(ctx, case, s.serialize_molecule, r)
     if not ok:
         return
+    # the same molecule as a graph whose node iteration order differs from its label order (what nx.relabel_nodes or
+    # canonicalize_molecule itself hand on), and the already canonical graph fed in again
+    rng = random.Random(case["vseed"])
+    for variant in ("relabelled", "canonical-again"):
+        g1 = bridge.harness_relabel(g0, rng)[0] if variant == "relabelled" else r
+        ctx.evaluations += 1
+        ok, s1 = molprops.guarded(ctx, {**case, "variant": variant}, s.serialize_molecule, c.canonicalize_molecule(g1))
+        if not ok:
+            return
+        ctx.count("cov_input_iteration_order_differs_from_labels")
     syms = [d["element_symbol"] for _, d in g0.nodes(data=True)]
     elems = sorted(set(syms))
     from ..oracles.elements import hill_order
